@@ -104,6 +104,29 @@ CHECKS = {
              "CLI sessions sign --signature-only -> hash --signature vs sign (Gen_C15cli)",
         assumptions=[],
     ),
+    "C08": dict(
+        level="model_checking",
+        mc=[dict(module="MC_Eip712", workers=16)],
+        gen=[dict(module="Gen_C08", slices=dict(quick=16, thorough=16))],
+        rule="MC_Eip712: the dependency work-list equals the declarative closure, never repeats the primary type and "
+             "terminates, for ALL reference tables of 3 struct types with <= 2 (quick) / 3 (thorough) references each "
+             "x every primary; Gen_C08: every such table rendered as a document (names B/a/Aa: byte order != insertion "
+             "order != case-insensitive order; reference forms plain/[]/[2][]/[][1] rotating), 100 atomic types x 4 "
+             "boundary values x 4 positions, PRNG documents (<= 5 struct types, <= 6 members, nesting, all 31 domain "
+             "shapes)",
+        assumptions=["Keccak-256 is a trusted primitive"],
+    ),
+    "C20": dict(
+        level="model_checking",
+        mc=[dict(module="MC_Domain", workers=16)],
+        gen=[dict(module="Gen_C20", slices=dict(quick=16, thorough=16))],
+        rule="MC_Domain: the ordered scan accepts exactly the non-empty subsequences of the standard members with "
+             "their standard types, for ALL member sequences up to length 5 (quick) / 6 (thorough) over 5 standard "
+             "names + a foreign one x {right type, wrong type}; Gen_C20: every sequence up to length 3 (quick) / 4 "
+             "(thorough) over the 11 typed choices, all 326 duplicate-free orderings, one wrong type in each position "
+             "of the 31 well-formed types, PRNG sequences of length 4..7, a document without a domain type",
+        assumptions=[],
+    ),
 }
 
 # Text for MANIFEST.json (tools/mkmanifest.py)
@@ -162,6 +185,19 @@ MANIFEST_TEXT = {
         text="Signature text printer/parser are TLA+ definitions, model-checked for inversion; the library's "
              "Display/FromStr and the CLI sign/hash interoperation sessions are validated by TLC against them.",
         design_ref="6 (C15)", note=_TRUST, technique="TLC model check + trace validation of library calls and CLI sessions"),
+    "C08": dict(
+        text="encodeType's dependency work-list is model-checked against the declarative closure over all small "
+             "reference tables; the three public digests of spec-generated documents (all those tables, all atomic "
+             "types at their boundaries in four positions, PRNG documents) computed by the real library are validated "
+             "by TLC against Eip712.tla's hashStruct/encodeType/encodeData.",
+        design_ref="6 (C08)", note=_TRUST,
+        technique="TLC exhaustive model check of the closure machine + trace validation of generated documents"),
+    "C20": dict(
+        text="The ordered scan of the domain type is model-checked against the declarative subsequence rule over all "
+             "short typed member sequences; every such sequence is also submitted to the real library as a complete "
+             "document and the accept/refuse outcome (and digests when accepted) validated by TLC.",
+        design_ref="6 (C20)", note=_TRUST,
+        technique="TLC exhaustive model check of the scan machine + trace validation"),
     "C07": dict(
         text="TLC proves on the specification (MC_Rlp, exhaustive over a bounded structurally complete universe) that "
              "the strict decoder inverts the encoder and rejects every non-canonical variant; the implementation is "
